@@ -101,7 +101,12 @@ def reader_norm(fn, mode):
     byte-only bounds checks and stream-only state tests dropped; locals renamed by first appearance"""
     ren = {}
 
+    ptr_locals = set()
+    walk(fn["body"], lambda n: [ptr_locals.add(v["d"]) for v in n.get("vars", []) if "d" in v and v.get("t", "").endswith("*") and any(x in v["t"] for x in ("char", "void"))] if n.get("k") == "Decl" else None)
+
     def rn(d, n):
+        if d in ptr_locals:
+            return "SRC"
         if d not in ren:
             ren[d] = "v%d" % len(ren)
         return ren[d]
@@ -118,6 +123,14 @@ def reader_norm(fn, mode):
     def read_of(e):
         """(dest decl ref or None, size) if e is a primitive read expression"""
         e = strip_all(e)
+        if e.get("k") == "Assign" and e.get("op") == "=" and strip(e["l"]).get("k") == "Ref":
+            inner = read_of(e["r"])
+            if inner is not None and inner[0] is None:
+                return (strip(e["l"]), inner[1])
+        if e.get("k") == "Un" and e.get("op") == "*":
+            t = strip(e["e"])
+            if t.get("k") == "Un" and t.get("op") == "++" and t.get("post") and (strip(t["e"]).get("t") or "").endswith("*"):
+                return (None, 1)
         if e.get("k") == "Call" and (e.get("callee") or "").startswith("datasketches::read") and e.get("args") and is_stream(e["args"][0]) and len(e["args"]) == 1:
             return (None, e.get("sz"))
         if e.get("k") == "Assign" and e.get("op") == "+=" and (strip(e["l"]).get("t") or "").endswith("*"):
@@ -190,7 +203,20 @@ def reader_norm(fn, mode):
     stm(fn["body"])
     # abstract the remaining I/O specifics
     res = []
+    # names that are never used again are dropped (`v5=READ(2)` == `READ(2)` for a reserved field)
+    joined = "\n".join(out)
+    out2 = []
     for t in out:
+        m = re.match(r"^(v\d+)=(READ\(\w+\))$", t)
+        if m and len(re.findall(r"\b%s\b" % m.group(1), joined)) == 1:
+            t = m.group(2)
+        out2.append(t)
+    out = out2
+    for t in out:
+        t = re.sub(r"\(SRC\+=(.*)\)$", r"\1", t)
+        t = re.sub(r"(\w+\.)?deserialize\(SRC,(?:[^,()]|\([^()]*\))*?,([^,]+),([^,]+)\)$", lambda m: "SERDE(%s,%s)" % (m.group(2), m.group(3)) if m.group(0).count(",") == 3 else m.group(0), t)
+        t = re.sub(r"^read\(SRC,", "RAW(", t)
+        t = re.sub(r"^copy_from_mem\(SRC,", "RAW(", t)
         t = re.sub(r"\bis\b", "SRC", t)
         t = re.sub(r"\b(ptr|bytes)\b", "SRC", t)
         t = re.sub(r"SRC,\(?\(?[^,()]*end_ptr[^,()]*\)?\)?,", "SRC,", t)
